@@ -30,7 +30,8 @@ type ReadStep struct {
 type Script struct {
 	Reply []byte     `json:"reply"`
 	Steps []ReadStep `json:"steps"`
-	// After the steps are exhausted every further Read returns this: "deadline" (idle forever), "eof", "inject".
+	// After the steps are exhausted every further Read returns this: "deadline" (idle forever), "deadline-wrapped", "eof",
+	// "inject", "zero" (0 bytes and no error, for ever).
 	Tail string `json:"tail"`
 	// WriteErr makes Write fail with ErrInjected.
 	WriteErr bool `json:"write_err,omitempty"`
@@ -148,7 +149,7 @@ func (c *Conn) Read(p []byte) (int, error) {
 	var err error
 	sleep := 0
 	if c.Net && c.rdl.IsZero() && !c.closed {
-		empty := c.step >= len(c.S.Steps) && (c.S.Tail == "" || c.S.Tail == "deadline")
+		empty := c.step >= len(c.S.Steps) && (c.S.Tail == "" || c.S.Tail == "deadline" || c.S.Tail == "deadline-wrapped")
 		if c.step < len(c.S.Steps) {
 			st := c.S.Steps[c.step]
 			empty = st.N == 0 && (st.Err == "deadline" || st.Err == "deadline-wrapped")
@@ -179,7 +180,7 @@ func (c *Conn) Read(p []byte) (int, error) {
 		err = kindErr(st.Err)
 	} else {
 		err = kindErr(c.S.Tail)
-		if err == nil {
+		if err == nil && c.S.Tail != "zero" { // "zero": a port whose read timeout shows as (0, nil)
 			err = os.ErrDeadlineExceeded
 		}
 		c.idle++
